@@ -125,18 +125,77 @@ func genSchema(repo string) *genFile {
 	g.pf("def customMethods : List String := %s\n\n", leanStrList(methods))
 
 	// ordered e.Encode / EncodeToken / helper calls of the container marshalers
+	var lastGuards []string
 	calls := func(recv, name string) []string {
 		fd := p.funcDecl(recv, name)
+		lastGuards = nil
 		if fd == nil {
 			g.fail("%s.%s not found", recv, name)
 			return nil
 		}
+		// guard of every call: the conjunction of the enclosing `if cond {` conditions ("" = unconditional)
+		guardOf := map[token.Pos]string{}
+		var walk func(n ast.Node, guard string)
+		mark := func(n ast.Node, guard string) {
+			if n == nil {
+				return
+			}
+			ast.Inspect(n, func(k ast.Node) bool {
+				if c, ok := k.(*ast.CallExpr); ok {
+					guardOf[c.Pos()] = guard
+				}
+				return true
+			})
+		}
+		and := func(a, b string) string {
+			if a == "" {
+				return b
+			}
+			return a + " && " + b
+		}
+		walk = func(n ast.Node, guard string) {
+			switch x := n.(type) {
+			case *ast.BlockStmt:
+				for _, st := range x.List {
+					walk(st, guard)
+				}
+			case *ast.IfStmt:
+				if x.Init != nil {
+					mark(x.Init, guard)
+				}
+				mark(x.Cond, guard)
+				cond := p.nodeText(x.Cond)
+				if x.Init != nil {
+					cond = "<" + p.nodeText(x.Init) + "; " + cond + ">"
+				}
+				walk(x.Body, and(guard, cond))
+				if x.Else != nil {
+					walk(x.Else, and(guard, "!("+cond+")"))
+				}
+			case *ast.ForStmt:
+				walk(x.Body, and(guard, "<loop>"))
+			case *ast.RangeStmt:
+				walk(x.Body, and(guard, "<loop>"))
+			case *ast.SwitchStmt, *ast.TypeSwitchStmt, *ast.SelectStmt:
+				mark(n, and(guard, "<switch>"))
+			default:
+				mark(n, guard)
+			}
+		}
+		walk(fd.Body, "")
 		var out []string
 		ast.Inspect(fd.Body, func(n ast.Node) bool {
 			c, ok := n.(*ast.CallExpr)
 			if !ok {
 				return true
 			}
+			nOut := len(out)
+			defer func() {
+				for len(lastGuards) < len(out) {
+					_ = nOut
+					lastGuards = append(lastGuards, guardOf[c.Pos()])
+				}
+			}()
 			t := exprText(c.Fun)
 			switch {
 			case t == "e.EncodeElement" && len(c.Args) == 2:
@@ -174,7 +233,9 @@ func genSchema(repo string) *genFile {
 		return out
 	}
 	g.pf("def marshalInnerXMLCalls : List String := %s\n", leanStrList(calls("OSM", "marshalInnerXML")))
+	g.pf("def marshalInnerXMLGuards : List String := %s\n", leanStrList(lastGuards))
 	g.pf("def marshalInnerElementsXMLCalls : List String := %s\n", leanStrList(calls("OSM", "marshalInnerElementsXML")))
+	g.pf("def marshalInnerElementsXMLGuards : List String := %s\n", leanStrList(lastGuards))
 	g.pf("def osmMarshalXMLCalls : List String := %s\n", leanStrList(calls("OSM", "MarshalXML")))
 	g.pf("def changeMarshalXMLCalls : List String := %s\n", leanStrList(calls("Change", "MarshalXML")))
 	g.pf("def marshalInnerChangeCalls : List String := %s\n", leanStrList(calls("", "marshalInnerChange")))
@@ -227,6 +288,20 @@ func genSchema(repo string) *genFile {
 	g.pf("def osmUnmarshalJSONCases : List String := %s\n", leanStrList(caseLabels(p.funcDecl("OSM", "UnmarshalJSON"))))
 	if sp, err := loadPkg(repo + "/osmxml"); err == nil {
 		g.pf("def scannerCases : List String := %s\n", leanStrList(caseLabels(sp.funcDecl("Scanner", "Scan"))))
+		// settings the scanner gives its xml.Decoder (none = the strict default that xml.Unmarshal uses too)
+		var settings []string
+		for _, fn := range sp.sortedFiles() {
+			ast.Inspect(sp.files[fn], func(n ast.Node) bool {
+				if as, ok := n.(*ast.AssignStmt); ok && len(as.Lhs) == 1 {
+					l := exprText(as.Lhs[0])
+					if strings.Contains(l, "decoder.") || strings.Contains(l, "Decoder.") {
+						settings = append(settings, l+" = "+exprText(as.Rhs[0]))
+					}
+				}
+				return true
+			})
+		}
+		g.pf("def scannerDecoderSettings : List String := %s\n", leanStrList(settings))
 	} else {
 		g.fail("cannot load osmxml: %v", err)
 	}
@@ -266,6 +341,7 @@ func genSchema(repo string) *genFile {
 	}
 	sort.Strings(shims)
 	g.pf("def jsonTypeShims : List String := %s\n", leanStrList(shims))
+	genSchemaJSON(g, p)
 	return g
 }
 
